@@ -15,7 +15,8 @@
 //! C18 cases (`case <name> kind=acc max=<n|default> tmo=<ms|default>`): the header builds factory 0
 //! (`Acceptor::new`, `set_handshake_timeout`) and service 0 of both flavours; `fnew` / `fset f ms` / `fclone f` /
 //! `fsvc f` create, configure, clone factories and build further services on the same thread;
-//! `call <lib> <cli> [s]` goes through service `s`.  The deadline the oracle holds a call to is computed from
+//! `call <lib> <cli> [s]` goes through service `s`; `ready [w]` asks every service for readiness from task `w`
+//! (0..2, distinct wakers; `r=<mask>` in the observations = which of these tasks have been woken).  The deadline the oracle holds a call to is computed from
 //! its own bookkeeping of the configuration history, never read back from the crate.
 #![allow(dropping_copy_types)] // `build_svc!` drops the original of every clone, also of the `Copy` TCP connector
 use std::{
@@ -367,6 +368,8 @@ struct ConnOp {
     /// the request is made with `ConnectInfo::from(host)` instead of `ConnectInfo::new(host)`
     from: bool,
     res: Option<Option<Vec<AddrT>>>, // None = default resolver; Some(None)=err; Some(Some(v))=ok
+    /// `dflt=<ips>`: what the OS resolver says for `localhost` (measured when the ops were generated)
+    dflt_ips: Vec<IpAddr>,
     host: HostReq,
     with: Option<SocketAddr>,
     steps: Vec<Step>,
@@ -394,7 +397,10 @@ fn parse_conn_op(cx: &Ctx, ws: &[&str]) -> Option<ConnOp> {
     if (path == "k" || path == "kc") && via != "resolve" {
         return None;
     }
-    let res = if ws[2].starts_with("dflt=") {
+    let mut dflt_ips = vec![];
+    let res = if let Some(l) = ws[2].strip_prefix("dflt=") {
+        // (entries that are not IP addresses are ignored, as on the model side)
+        dflt_ips.extend(l.split(';').filter_map(|ip| ip.parse::<IpAddr>().ok()));
         None
     } else if ws[2] == "err" {
         Some(None)
@@ -452,7 +458,7 @@ fn parse_conn_op(cx: &Ctx, ws: &[&str]) -> Option<ConnOp> {
             return None;
         }
     }
-    Some(ConnOp { via, path, from, res, host, with, steps })
+    Some(ConnOp { via, path, from, res, dflt_ips, host, with, steps })
 }
 
 fn build_info(op: &ConnOp) -> (ConnectInfo<HostReq>, Option<IpAddr>) {
@@ -508,11 +514,45 @@ fn run_conn_op_attempt(rt: &tokio::runtime::Runtime, cx: &Ctx, op: &ConnOp, rep:
         Some(_) => Resolver::custom(script_resolver()),
     };
     let (ci, local) = build_info(op);
-    // facts about the request, taken before it is consumed (inputs of the oracle)
-    let preset: Vec<SocketAddr> = ci.addrs().collect();
-    let hostname = ci.hostname().to_string();
-    let eff_port = ci.port();
+    // facts about the request (inputs of the oracle), computed from the op itself - not read back from the
+    // crate: the hostname is the part of a host string before its first `:`, the port is the request's own
+    // port (the part after the first `:` if it is a u16; a custom `Host`'s `port()`) and only without one the
+    // value given to `set_port` last (`new` / `from`: the request's port or 0, `with_addr`: 0)
+    let (hostname, own_port): (String, Option<u16>) = match &op.host {
+        HostReq::S(h) => match h.split_once(':') {
+            Some((n, p)) => (n.to_string(), p.parse::<u16>().ok()),
+            None => (h.clone(), None),
+        },
+        HostReq::T(h) => match h.split_once(':') {
+            Some((n, p)) => (n.to_string(), p.parse::<u16>().ok()),
+            None => (h.to_string(), None),
+        },
+        HostReq::H(n, p) => (n.clone(), *p),
+    };
+    let field_port = op.steps.iter().rev().find_map(|s| if let Step::Port(p) = s { Some(*p) } else { None }).unwrap_or(0);
+    let eff_port = own_port.unwrap_or(field_port);
     let literal = is_ip_literal(&hostname);
+    let preset: Vec<SocketAddr> = {
+        let mut cur: Vec<SocketAddr> = op.with.into_iter().collect();
+        for s in &op.steps {
+            match s {
+                Step::Addr(a) => cur = a.iter().copied().collect(),
+                Step::Addrs(v) => cur = v.clone(),
+                _ => {}
+            }
+        }
+        cur
+    };
+    let mut pre_fails: Vec<String> = vec![];
+    if ci.hostname() != hostname || ci.port() != eff_port {
+        pre_fails.push(format!(
+            "ConnectInfo reports hostname {:?} port {}, expected {:?} port {} (the request's own port {:?} wins over the set_port value {})",
+            ci.hostname(), ci.port(), hostname, eff_port, own_port, field_port
+        ));
+    }
+    if ci.addrs().collect::<Vec<_>>() != preset {
+        pre_fails.push(format!("ConnectInfo carries addresses {:?}, expected {:?}", ci.addrs().collect::<Vec<_>>(), preset));
+    }
 
     enum Out {
         Resolved(Vec<SocketAddr>, String, u16, HostReq),
@@ -592,7 +632,7 @@ fn run_conn_op_attempt(rt: &tokio::runtime::Runtime, cx: &Ctx, op: &ConnOp, rep:
     };
 
     // ---------------- T3: the property, evaluated on the real behaviour ----------------
-    let mut fails: Vec<String> = vec![];
+    let mut fails: Vec<String> = pre_fails;
     let mut fail = |m: String| fails.push(m);
     if matches!(r, Out::Panic | Out::Watchdog) {
         fail(format!("connector did not return: {res}"));
@@ -625,7 +665,11 @@ fn run_conn_op_attempt(rt: &tokio::runtime::Runtime, cx: &Ctx, op: &ConnOp, rep:
                     AddrT::IpP(ip) => SocketAddr::new(*ip, eff_port),
                 })
                 .collect()),
-            None => Err("?"), // OS resolver: not judged here beyond the correspondence
+            // the OS resolver (no network needed): `localhost` has the addresses measured at generation time, a
+            // name under the reserved `.invalid` TLD cannot resolve: `ConnectError::Resolver`, as for any failure
+            None if hostname == "localhost" && !op.dflt_ips.is_empty() => Ok(op.dflt_ips.iter().map(|ip| SocketAddr::new(*ip, eff_port)).collect()),
+            None if hostname.ends_with(".invalid") => Err("resolver"),
+            None => Err("?"), // other names: not judged here beyond the correspondence
         }
     };
     match (&expected_addrs, &r) {
@@ -1644,11 +1688,13 @@ mod acc {
         default_tmo_ms: u64,
         max: usize,
         conns: Vec<ConnRec>,
-        rflag: Arc<Flag>,
+        /// wake flags of the tasks that ask the services for readiness (`ready [w]`, distinct wakers)
+        rflags: [Arc<Flag>; 3],
         start: tokio::time::Instant,
         pub t3: Vec<String>,
         pub notes: Vec<String>,
-        last_ready_pending: bool,
+        /// the task that asked for readiness LAST, if it was answered `Pending` (it is parked on the counter)
+        parked: Option<usize>,
     }
 
     fn new_client(cli: &str, io: DuplexStream) -> Option<CFut> {
@@ -1696,11 +1742,11 @@ mod acc {
                 default_tmo_ms,
                 max: max.unwrap_or(default_max),
                 conns: vec![],
-                rflag: Flag::new(),
+                rflags: [Flag::new(), Flag::new(), Flag::new()],
                 start: tokio::time::Instant::now(),
                 t3: vec![],
                 notes: vec![],
-                last_ready_pending: false,
+                parked: None,
             }
         }
 
@@ -1710,13 +1756,19 @@ mod acc {
         fn alive(&self) -> usize {
             self.conns.iter().filter(|c| c.sfut.is_some()).count()
         }
+        /// which readiness tasks have been woken: bit `w` for task `w`
         fn rf(&self) -> u8 {
-            self.rflag.get() as u8
+            self.rflags.iter().enumerate().map(|(i, f)| (f.get() as u8) << i).sum()
         }
 
-        fn op_ready(&mut self) -> String {
-            self.rflag.clear();
-            let w = Waker::from(self.rflag.clone());
+        /// the task parked on the counter that has not been woken yet
+        fn parked_now(&self) -> Option<usize> {
+            self.parked.filter(|w| !self.rflags[*w].get())
+        }
+
+        fn op_ready(&mut self, wk: usize) -> String {
+            self.rflags[wk].clear();
+            let w = Waker::from(self.rflags[wk].clone());
             // every acceptor service of the thread (either flavour, whichever factory or clone it was built
             // from) gates on the one per-thread counter: ask them all (service 0 last, its answer is the
             // observation) and hold each answer against the property
@@ -1735,7 +1787,7 @@ mod acc {
                     a = ra;
                 }
             }
-            self.last_ready_pending = !a;
+            self.parked = if a { None } else { Some(wk) };
             if a { "ready".into() } else { "pending".into() }
         }
 
@@ -1820,16 +1872,23 @@ mod acc {
         }
 
         /// the guard of a finished / dropped handshake must have been released: a parked service task is woken
-        fn after_release(&mut self, was_pending: bool, inprog_before: usize, what: &str) {
-            if was_pending && inprog_before == self.max && !self.rflag.get() {
-                self.t3.push(format!("service task parked at the limit was not woken when a handshake ended ({what})"));
+        /// (the task that asked for readiness last and was answered `Pending`, not one that asked earlier)
+        fn after_release(&mut self, parked: Option<usize>, inprog_before: usize, what: &str) {
+            if let Some(w) = parked {
+                if inprog_before == self.max && !self.rflags[w].get() {
+                    let others: Vec<String> = (0..3).filter(|i| *i != w && self.rflags[*i].get()).map(|i| i.to_string()).collect();
+                    self.t3.push(format!(
+                        "service task {w}, the last to be answered Pending at the limit, was not woken when a handshake ended ({what}){}",
+                        if others.is_empty() { String::new() } else { format!("; woken instead: task {}", others.join(",")) }
+                    ));
+                }
             }
         }
 
         fn poll_one(&mut self, k: usize) -> Option<Outcome> {
             let now = self.now_ms();
             let inprog = self.alive();
-            let was_pending = self.last_ready_pending && !self.rflag.get();
+            let was_pending = self.parked_now();
             let c = &mut self.conns[k];
             c.flag.clear();
             let w = Waker::from(c.flag.clone());
@@ -1911,7 +1970,7 @@ mod acc {
                 return None;
             }
             let inprog = self.alive();
-            let was_pending = self.last_ready_pending && !self.rflag.get();
+            let was_pending = self.parked_now();
             let c = &mut self.conns[k];
             c.sfut = None;
             c.dropped = true;
@@ -1999,8 +2058,10 @@ mod acc {
 
         fn woken_list(&self) -> String {
             let mut v: Vec<String> = self.conns.iter().enumerate().filter(|(_, c)| c.sfut.is_some() && c.flag.get()).map(|(i, _)| i.to_string()).collect();
-            if self.rflag.get() {
-                v.push("r".into());
+            for (i, f) in self.rflags.iter().enumerate() {
+                if f.get() {
+                    v.push(if i == 0 { "r".to_string() } else { format!("r{i}") });
+                }
             }
             format!("[{}]", v.join(","))
         }
@@ -2369,7 +2430,8 @@ mod acc {
         pub async fn op(&mut self, ws: &[&str]) -> String {
             let idx = |s: &str| s.parse::<usize>().ok();
             let r: Option<String> = match ws {
-                ["ready"] => Some(self.op_ready()),
+                ["ready"] => Some(self.op_ready(0)),
+                ["ready", w] => canon_num(w, 2).map(|w| self.op_ready(w as usize)),
                 ["call", lib, cli] => self.op_call(lib, cli, 0),
                 ["call", lib, cli, sv] => canon_num(sv, 64).and_then(|sv| self.op_call(lib, cli, sv as usize)),
                 ["fnew"] => self.op_fnew(),
@@ -2748,6 +2810,13 @@ fn gen_c19(a: &Args, w: &mut dyn Write) {
             writeln!(w, "conn {base}:{p} ok=e1;e0 t=path.test:@2").unwrap();
             writeln!(w, "conn {base}:{p} err s=path.test with=e1").unwrap();
             writeln!(w, "conn {base}:{p} ok=e0 s=path.test addrs=e2;e1 port=@0").unwrap();
+            // the request's own port wins over `set_port` (resolver asked with it, literal dialled at it);
+            // without one (none / not a u16) the `set_port` value counts
+            writeln!(w, "conn {base}:{p} ok=127.0.0.1:P s=path.test:@0 port=@1").unwrap();
+            writeln!(w, "conn {base}:{p} err t=127.0.0.1:@0 port=@1").unwrap();
+            writeln!(w, "conn {base}:{p} ok=127.0.0.1:P h=path.test,@1 port=@0 port=@2").unwrap();
+            writeln!(w, "conn {base}:{p} ok=127.0.0.1:P s=path.test:x port=@0 port=@1").unwrap();
+            writeln!(w, "conn {base}:{p} ok= s=127.0.0.1 from port=@1").unwrap();
         }
         writeln!(w, "conn tcp:{p} err s=path.test addrs=e2;e1").unwrap();
         writeln!(w, "conn tcp:{p} err s=path.test:@0").unwrap();
@@ -2769,6 +2838,10 @@ fn gen_c19(a: &Args, w: &mut dyn Write) {
             writeln!(w, "conn {base}:{p} {dflt} s=nx.invalid:@0").unwrap();
             writeln!(w, "conn {base}:{p} {dflt} s=127.0.0.1:@1").unwrap();
             writeln!(w, "conn {base}:{p} {dflt} s=nx.invalid with=e1").unwrap();
+            // a failing OS look-up is `ConnectError::Resolver` (no network needed: `.invalid` never resolves)
+            writeln!(w, "conn {base}:{p} {dflt} t=nonexistent.invalid:80").unwrap();
+            writeln!(w, "conn {base}:{p} {dflt} h=nonexistent.invalid,- from port=@0").unwrap();
+            writeln!(w, "conn {base}:{p} {dflt} s=localhost:@1 port=@0").unwrap();
         }
         writeln!(w, "conn tcp:{p} err s=path.test addrs=e2;e0").unwrap();
         writeln!(w, "conn tcp:{p} {dflt} s=localhost:@0").unwrap();
@@ -3107,6 +3180,55 @@ fn gen_c18(a: &Args, w: &mut dyn Write) {
             }
         }
     }
+    // (G) several tasks ask for readiness (distinct wakers): the one that asked LAST and was answered Pending is
+    //     the one a handshake's end wakes, not one that asked earlier in the same not-ready period
+    let mut gi = 0usize;
+    for lib in libs {
+        for max in 1..=2usize {
+            for ending in ["drop", "timeout", "ok", "tlserr"] {
+                for order in [&[1usize, 2][..], &[0, 1], &[2, 0, 1], &[1, 0, 1], &[2, 2]] {
+                    gi += 1;
+                    writeln!(w, "case wak-{gi} kind=acc max={max} tmo=300").unwrap();
+                    for k in 0..max {
+                        writeln!(w, "ready {}", order[0]).unwrap();
+                        writeln!(w, "call {} {}", if k == 0 { lib } else { libs[gi % 2] }, clis[(gi + k) % 4]).unwrap();
+                        writeln!(w, "poll {k}").unwrap();
+                    }
+                    for t in order {
+                        writeln!(w, "ready {t}").unwrap();
+                    }
+                    match ending {
+                        "drop" => writeln!(w, "drop 0").unwrap(),
+                        "timeout" => {
+                            writeln!(w, "advance 300").unwrap();
+                            writeln!(w, "poll 0").unwrap();
+                        }
+                        "ok" => {
+                            writeln!(w, "cflight 0 full").unwrap();
+                            writeln!(w, "poll 0").unwrap();
+                            writeln!(w, "cflight 0 full").unwrap();
+                            writeln!(w, "poll 0").unwrap();
+                        }
+                        _ => {
+                            writeln!(w, "garbage 0 {}", kinds[gi % 4]).unwrap();
+                            writeln!(w, "poll 0").unwrap();
+                        }
+                    }
+                    // the woken task asks again and takes the slot; an earlier asker parks anew; next end
+                    let last = *order.last().unwrap();
+                    writeln!(w, "ready {last}").unwrap();
+                    writeln!(w, "call {lib} r13").unwrap();
+                    writeln!(w, "ready {}", order[0]).unwrap();
+                    writeln!(w, "ready {}", (last + 1) % 3).unwrap();
+                    writeln!(w, "drop {max}").unwrap();
+                    writeln!(w, "ready {}", (last + 1) % 3).unwrap();
+                }
+            }
+        }
+    }
+    for l in ["case wak-bad kind=acc max=1 tmo=100", "ready 3", "ready 00", "ready x", "ready 1 1", "ready 2"] {
+        writeln!(w, "{l}").unwrap();
+    }
     // malformed / inapplicable factory ops
     writeln!(w, "case fac-bad kind=acc max=2 tmo=100").unwrap();
     for l in ["fclone 1", "fsvc 1", "fset 1 100", "fset 0 0", "fset 0 20001", "fset 0 0100", "fset 0", "fclone", "fclone 00", "fnew 1", "call r r13 1", "call r r13 00", "call r r13 x", "fsvc x"] {
@@ -3430,6 +3552,7 @@ fn gen_c18(a: &Args, w: &mut dyn Write) {
         for _ in 0..nops {
             let k = rng.below(calls.max(1));
             match rng.below(24) {
+                0 if rng.chance(1, 2) => writeln!(w, "ready {}", rng.below(3)).unwrap(),
                 20 => match rng.below(3) {
                     0 if nf < 8 => {
                         writeln!(w, "fnew").unwrap();
